@@ -1,6 +1,7 @@
 // C15 (+C18, +C20 sequential mode): SkipListSet (towers forced high and low), EllenBinTreeSet, BronsonAVLTreeMap (value and pointer forms,
 // injecting and pool monitors) over HP, DHP and URCU flavours; extract_min / extract_max interval rules.
 #include <cdsv/setadapt.h>
+#include <map>
 #include <cds/urcu/general_instant.h>
 #include <cds/urcu/general_buffered.h>
 #include <cds/urcu/general_threaded.h>
@@ -50,11 +51,67 @@ namespace {
     template <class Gen>
     struct sl_tr<Gen, true>: cc::skip_list::traits { typedef ItemCmp compare; typedef IC item_counter; typedef Gen random_level_generator; typedef cc::skip_list::stat<> stat; };
 
-    template <class S> struct MkSkip: MakeBase {
+    // C18, "every skip-list level is an ordered sub-list of the level below": the head tower is private, so the check starts from the nodes
+    // of level 0 (reached through the public iterator; the node is recovered from the address of its value) and follows next(l) from the
+    // first node of every level. Run at quiescent points only.
+    std::atomic<uint64_t> g_skip_links{ 0 };    // upper-level links followed by the level check (evidence that it looked at something)
+    template <class S> struct SkipProbe: S { typedef typename S::node_type node_type; };
+    template <class Rcu> struct SkipLock { SkipLock() { Rcu::access_lock(); } ~SkipLock() { Rcu::access_unlock(); } };
+    template <> struct SkipLock<void> {};
+
+    template <class S, class Rcu = void> struct MkSkip: MakeBase {
         static S* make() { return new S; }
+        static bool consistent( S& s, std::string& why )
+        {
+            typedef typename SkipProbe<S>::node_type node_type;
+            SkipLock<Rcu> lock; (void) lock;
+            std::vector<node_type*> level0;
+            std::vector<int> keys;
+            node_type probe_node( 1, nullptr, Item( 0, 0 ));    // height 1, no tower: only for the offset of m_Value inside the node
+            ptrdiff_t off = reinterpret_cast<char*>( &probe_node.m_Value ) - reinterpret_cast<char*>( &probe_node );
+            for ( auto it = s.begin(); it != s.end(); ++it ) {
+                Item& v = *it;
+                level0.push_back( reinterpret_cast<node_type*>( reinterpret_cast<char*>( &v ) - off ));
+                keys.push_back( v.key );
+            }
+            std::map<node_type*, size_t> index;
+            for ( size_t i = 0; i < level0.size(); ++i ) index[level0[i]] = i;
+            unsigned maxh = 0;
+            for ( node_type* n : level0 ) maxh = std::max( maxh, unsigned( n->height()));
+            for ( unsigned l = 1; l < maxh; ++l ) {
+                // first node of level l in level-0 order
+                size_t first = level0.size();
+                for ( size_t i = 0; i < level0.size(); ++i ) if ( level0[i]->height() > l ) { first = i; break; }
+                if ( first == level0.size()) continue;
+                size_t cur = first, steps = 0;
+                for (;;) {
+                    auto nx = level0[cur]->next( l ).load( std::memory_order_acquire );
+                    node_type* p = static_cast<node_type*>( nx.ptr());
+                    if ( !p ) break;
+                    auto f = index.find( p );
+                    if ( f == index.end()) {
+                        why = "skip-list level " + std::to_string( l ) + ": the successor of key " + std::to_string( keys[cur] ) + " is a node that is not on level 0 (not an element of the list any more)";
+                        return false;
+                    }
+                    if ( f->second <= cur ) {
+                        why = "skip-list level " + std::to_string( l ) + " is not ordered: key " + std::to_string( keys[f->second] ) + " follows key " + std::to_string( keys[cur] );
+                        return false;
+                    }
+                    if ( p->height() <= l ) {
+                        why = "skip-list level " + std::to_string( l ) + " links key " + std::to_string( keys[f->second] ) + " whose tower has only " + std::to_string( p->height()) + " level(s)";
+                        return false;
+                    }
+                    cur = f->second;
+                    g_skip_links.fetch_add( 1, std::memory_order_relaxed );
+                    if ( ++steps > level0.size()) { why = "skip-list level " + std::to_string( l ) + " contains a cycle"; return false; }
+                }
+            }
+            return true;
+        }
         static void mechanisms( S& s, PropStats& ps )
         {
             auto const& st = s.statistics();
+            ps.add_mech( "skip_list.upper_level_links_checked_at_quiescence", g_skip_links.exchange( 0 ));
             ps.add_mech( "skip_list.onFindFastSuccess", st.m_nFindFastSuccess.get()); ps.add_mech( "skip_list.onFindSlowSuccess", st.m_nFindSlowSuccess.get());
             ps.add_mech( "skip_list.onEraseWhileFind", st.m_nEraseWhileFind.get()); ps.add_mech( "skip_list.onLogicDeleteWhileInsert", st.m_nLogicDeleteWhileInsert.get());
             ps.add_mech( "skip_list.onRemoveWhileInsert", st.m_nRemoveWhileInsert.get()); ps.add_mech( "skip_list.onRenewInsertPosition", st.m_nRenewInsertPosition.get());
@@ -214,7 +271,7 @@ namespace {
     static const unsigned M_TREE = M_GC_SET | M_EXMIN | M_EXMAX | M_ERSW | M_FNDW;
 
     template <class S, class Rcu, bool Iter>
-    void go_skip( const char* name ) { run_set_variant< SetAdapter<S, MkSkip<S>, M_TREE, UPD_STD, Rcu, Iter> >( "C15", name, true, true, 2 ); }
+    void go_skip( const char* name ) { run_set_variant< SetAdapter<S, MkSkip<S, Rcu>, M_TREE, UPD_STD, Rcu, Iter> >( "C15", name, true, true, 2 ); }
     template <class S, class Rcu>
     void go_ellen( const char* name ) { run_set_variant< SetAdapter<S, MkEllen<S>, M_TREE, UPD_STD, Rcu, false> >( "C15", name, true, true, 2 ); }
     template <class A>
